@@ -121,7 +121,6 @@ def jobs_after_prepare(A: Analysis, col: Collector, rule: str):
     if len(job_nodes) < 2:
         raise AnalysisError(f"NodeExecution.start: {len(job_nodes)} Job( construction sites; floor 2")
     prep = [n for n in cfg.nodes if any(isinstance(c.func, ast.Attribute) and c.func.attr == "prepare_states" for c in _calls(n))]
-    A.anchor("state.prepare_states call in NodeExecution.start", prep)
     prep_ids = {n.id for n in prep}
     state_tests = [n for n in cfg.nodes if n.kind == "test" and norm(n.stmt.test) in ("self.state", "self.node.state", "self.state is not None")]
     for jn in job_nodes:
@@ -244,6 +243,11 @@ def check_c04(A: Analysis, col: Collector):
             col.ok("C04.extract", f"{fn.qualname}: element extraction is list(flatten(value, max_depth=container_ndim))[index]", A.loc(c))
         else:
             col.fail("C04.extract", fn.qualname, f"extraction-depth:{norm(md, 30)}", "element extraction does not flatten to the field's container_ndim", A.loc(c))
+    per_fn: dict[str, int] = {}
+    for fn, n in sites:
+        roots0 = A.flow.derives(n.value, fn)
+        if any(x.endswith("state.input_shape") for x in roots0.calls):
+            per_fn[fn.qualname] = per_fn.get(fn.qualname, 0) + 1
     for fn, n in sites:
         roots = A.flow.derives(n.value, fn)
         via_flatten = any(x.endswith("state.flatten") for x in roots.calls)
@@ -254,7 +258,7 @@ def check_c04(A: Analysis, col: Collector):
             col.fail(
                 "C04.bound",
                 fn.qualname,
-                "index-bound-from-input_shape",
+                f"index-bound-from-input_shape:x{per_fn.get(fn.qualname, 1)}",
                 f"`{norm(n, 60)}`: the number of jobs is prod(input_shape(value, container_ndim)) while each job's element is taken from flatten(value, max_depth=container_ndim); input_shape drops the inner dimensions when the nested lists differ in length, so for ragged input the bound is smaller than the flattening and trailing elements are never visited",
                 A.loc(n),
             )
@@ -327,6 +331,7 @@ SPLIT_CHECKS = {
     level_note="Trusted: CFG construction; the presence table SPLIT_CHECKS recognises each check by the variables its test compares.",
 )
 def check_c05(A: Analysis, col: Collector):
+    jobs_after_prepare(A, col, "C05.jobs")
     sp = A.func("pydra.compose.base.task.Task.split")
     col.scope(sp.qualname)
     is_evolve = lambda n: any("attrs.evolve" in A.callee_names(c, sp) for c in _calls(n))
